@@ -75,7 +75,7 @@ func c42ManifestText(n int, tables int) []byte {
 
 func c42CasCase(rt *rapid.T, rec *vh.Recorder) {
 	ctx := context.Background()
-	kind := c42PickKind(rt, "backend", 14)
+	kind := c42PickKind(rt, "backend", 14, 15)
 	var g c42GitOpts
 	if kind == c42Git {
 		g.sharedCache = rapid.Bool().Draw(rt, "git.sharedCache")
@@ -269,4 +269,8 @@ func TestVerif_C42(t *testing.T) {
 	vh.Check(t, "ranges", 220, 420, func(rt *rapid.T) { c42RangesCase(rt, recR) })
 	vh.Check(t, "concat", 150, 300, func(rt *rapid.T) { c42ConcatCase(rt, recC) })
 	vh.Check(t, "cas", 200, 380, func(rt *rapid.T) { c42CasCase(rt, recS) })
+	recG := vh.NewRecorder("C42", "conc", "exploration", c42ConcRule, append(assume,
+		"one goroutine per client handle (a GitBlobstore handle deliberately serves its cached manifest to readers while its own write is in flight, so a handle is one sequential client)")...)
+	defer recG.Write(t)
+	vh.Check(t, "conc", 80, 120, func(rt *rapid.T) { c42ConcCase(rt, recG, 10, 6) })
 }
